@@ -96,7 +96,10 @@ pub fn normalize(seq: &[RegOp]) -> Vec<RegOp> {
             RegOp::IndE(i) => RegOp::IndE(i % 5),
             RegOp::IndT(i) => RegOp::IndT(i % 5),
         };
-        if out.contains(&op) {
+        // a registration happens once; an independence mark may be repeated (the call is accepted any number of times and
+        // every call is a step of the sequence), at most three times here
+        let repeats = out.iter().filter(|o| **o == op).count();
+        if repeats >= if matches!(op, RegOp::IndE(_) | RegOp::IndT(_)) { 3 } else { 1 } {
             continue;
         }
         match op {
